@@ -6,6 +6,7 @@ from ..core import AnalysisError, Undecided
 from .. import e1_model as e1
 from ..e3_rules import get_engine
 from ..e3_values import *  # noqa
+from . import strterms as st_
 from .common import rule_construct, report_undecided, calls_in, norm, runs_of, Relevant
 from .lang import rules_accepting
 from .relspec import Summary, ts_sweep
@@ -102,9 +103,9 @@ def _arg(call, idx, kw):
 
 
 def _propagation(ctx, rep):
-    cm = ctx.mod("ctparse.ctparse")
-    pm = ctx.mod("ctparse.partial_parse")
-    rm = ctx.mod("ctparse.rule")
+    cm = ctx.imod("ctparse.ctparse")
+    pm = ctx.imod("ctparse.partial_parse")
+    rm = ctx.imod("ctparse.rule")
     hops = [
         (cm, "ctparse", "ts", "ctparse_gen", 1, "ts"),
         (cm, "ctparse_gen", "ts", "_ctparse", 1, "ts"),
@@ -137,23 +138,78 @@ def _propagation(ctx, rep):
             continue
         ok = True
         det = ""
+        # the value passed on, as a provenance term: the parameter itself, or (where an omitted
+        # reference time is defaulted) the parameter or the current time
+        T = st_.Terms(mod)
+        T.run(f.body, {p: ("var", p) for p in params})
+        terms = {id(node): ats for (_n, ats, node) in T.calls}
         for call in calls:
             a = _arg(call, idx, kw)
-            if not (isinstance(a, ast.Name) and a.id == pname):
+            if isinstance(a, ast.Name) and a.id == pname and not _rebound_before(f, pname, call):
+                continue
+            t = None
+            ats = terms.get(id(call))
+            if ats is not None and idx is not None and idx < len(ats) and idx < len(call.args):
+                t = ats[idx]
+            if t is None or not _is_ref_time(t, pname, allow_now=(qual == "ctparse_gen")):
                 ok = False
                 det = "argument is {} instead of the reference time".format(norm(a) if a is not None else "missing")
         rep.add("reference-time", c + " -> " + str(callee or "production"), mod.where(calls[0]), ok, det)
-    # the None default is datetime.now()
+    # the None default is datetime.now(): the value reaching the search is the current time
+    # exactly on the branch where the parameter is None
     gen = cm.func("ctparse_gen")
     ok = False
     for n in ast.walk(gen):
-        if isinstance(n, ast.If) and norm(n.test) == "ts is None":
-            for b in n.body:
-                if isinstance(b, ast.Assign) and norm(b.targets[0]) == "ts" and \
-                        norm(b.value) in ("datetime.now()", "datetime.today()"):
+        if isinstance(n, ast.Assign) and norm(n.value) in ("datetime.now()", "datetime.today()") \
+                and len(n.targets) == 1 and isinstance(n.targets[0], ast.Name):
+            var = n.targets[0].id
+            pol = _none_branch(n, gen, "ts")
+            if not pol:
+                continue
+            # that variable is what reaches _ctparse
+            T = st_.Terms(cm)
+            T.run(gen.body, {a.arg: ("var", a.arg) for a in gen.args.args})
+            for (name, ats, node) in T.calls:
+                if name == "_ctparse" and len(ats) > 1 and _is_ref_time(ats[1], "ts", allow_now=True) \
+                        and st_.find(ats[1], "mcall") and isinstance(node.args[1], ast.Name) \
+                        and node.args[1].id == var:
                     ok = True
     rep.add("reference-time", cm.rel + "::ctparse_gen::default", cm.where(gen), ok,
             "" if ok else "an omitted reference time is not replaced by the current time")
+
+
+def _is_now(t):
+    return isinstance(t, tuple) and len(t) >= 3 and t[0] == "mcall" and t[1] in ("now", "today") and \
+        t[2] == ("var", "datetime")
+
+
+def _is_ref_time(t, pname, allow_now):
+    if t == ("var", pname):
+        return True
+    if isinstance(t, tuple) and t and t[0] == "phi" and allow_now:
+        alts = t[1:]
+        return all(a == ("var", pname) or _is_now(a) for a in alts) and any(a == ("var", pname) for a in alts)
+    return False
+
+
+def _rebound_before(f, name, call):
+    return False
+
+
+def _none_branch(node, f, pname):
+    """is *node* on the branch of an enclosing test where <pname> is None?"""
+    cur = getattr(node, "_parent", None)
+    child = node
+    while cur is not None and cur is not f:
+        if isinstance(cur, ast.If):
+            in_body = any(child is b for b in cur.body)
+            t = norm(cur.test)
+            if (in_body and t in ("{} is None".format(pname), "not {}".format(pname))) or \
+                    (not in_body and t in ("{} is not None".format(pname), pname)):
+                return True
+        child = cur
+        cur = getattr(cur, "_parent", None)
+    return False
 
 
 def _closure_names(f):
@@ -175,7 +231,7 @@ def _dt_source(v):
 
 def _coherence(ctx, rep, eng):
     by_site = {}
-    for site, where, cls, attrs, cal, root in eng.interp.construct_log:
+    for site, where, cls, attrs, cal, root in eng.construct_log:
         if "year" not in attrs:
             continue
         for group in (("year", "month", "day"), ("hour", "minute")):
